@@ -141,6 +141,18 @@ pub fn parse_zone(data: &CfgData, tz: &str) -> Option<(String, i32)> {
     None
 }
 
+/// a zone of the table followed by a character that cannot belong to a zone name and then anything
+/// ("EST/EDT", "CET,"): no statement says whether `set_timezone` takes such a string (the pinned tree does,
+/// leniently); the checks only demand that a refusal changes nothing and that an acceptance configures a
+/// real zone of the table under its own offset
+pub fn zone_with_trailer(data: &CfgData, tz: &str) -> bool {
+    for (i, c) in tz.char_indices() {
+        if c.is_ascii_alphanumeric() { continue; }
+        return i > 0 && !matches!(c, '+' | '-' | ':' | '_') && data.zones.contains_key(&tz[..i]);
+    }
+    false
+}
+
 pub struct World {
     pub calc: SmartCalc,
     pub sessions: BTreeMap<u8, Session>,
